@@ -326,19 +326,14 @@ func (c *Case) args(showIgnored bool) []string {
 	return append(a, "./...")
 }
 
-// evaluate runs the two staticcheck invocations and judges every variant.
-// genInvalid: the base package is not usable (does not compile, too few problems).
-func evaluate(c *Case, cache string) (results []variantResult, genInvalid string, infra string) {
-	results, _, genInvalid, infra = evaluateQ(c, cache)
-	return
-}
-
 // quality describes the baseline of a case.
 type quality struct {
 	problems, checks, lines int
 	twoChecksOneLine        bool
 }
 
+// evaluateQ runs the two staticcheck invocations and judges every variant.
+// genInvalid: the base package is not usable (it does not compile).
 func evaluateQ(c *Case, cache string) (results []variantResult, q quality, genInvalid string, infra string) {
 	loadCatalogue()
 	dir, err := os.MkdirTemp("", "c10-")
